@@ -21,21 +21,41 @@ import traceback
 
 ROOT = os.path.dirname(os.path.dirname(os.path.abspath(__file__)))
 _MOD = None
+_TIER = "quick"
+
+
+class CaseTimeout(BaseException):
+    pass
+
+
+def _on_alarm(signum, frame):
+    raise CaseTimeout()
 
 
 def _run_one(mod, case):
+    """Executes one case. A case that does not terminate within the horizon (the library loops or blocks) is a failed
+    case too: every harness needs an explicit horizon, a hang must be reported, not waited for."""
+    import signal
+
     import numpy as np
 
+    limit = float(os.environ.get("VERIF_CASE_TIMEOUT_S", "0")) or float(getattr(mod, "CASE_TIMEOUT_S", {}).get(_TIER, 60 if _TIER == "quick" else 1200))
     state = np.random.get_state()
+    old = signal.signal(signal.SIGALRM, _on_alarm)
+    signal.setitimer(signal.ITIMER_REAL, limit)
     try:
         with np.errstate(all="ignore"):
             res = mod.run_case(case)
+    except CaseTimeout:
+        res = dict(viol=[dict(sub="timeout", tags={}, msg=f"the case did not terminate within {limit:.0f} s (non-terminating or blocked library call)")], checks=1)
     except Exception:  # an uncaught exception is a failed case: either the library raised or the harness is wrong
         res = dict(
             viol=[dict(sub="crash", tags={}, msg=traceback.format_exc()[-1500:])],
             checks=1,
         )
     finally:
+        signal.setitimer(signal.ITIMER_REAL, 0)
+        signal.signal(signal.SIGALRM, old)
         np.random.set_state(state)
     res.setdefault("viol", [])
     res.setdefault("checks", 0)
@@ -48,11 +68,21 @@ def _run_one(mod, case):
     return res
 
 
+_ABORT = mp.Value("i", 0)  # number of cases that ran into the horizon, shared with the forked workers
+
+
 def _work(chunk):
     lo, cases = chunk
     out = []
     for i, case in enumerate(cases):
+        if _ABORT.value >= 3:
+            # the library hangs on several cases: stop exploring, the run is reported as capped (not exhaustive)
+            out.append(dict(index=lo + i, skipped=True))
+            continue
         r = _run_one(_MOD, case)
+        if any(v.get("sub") == "timeout" for v in r["viol"]):
+            with _ABORT.get_lock():
+                _ABORT.value += 1
         r["index"] = lo + i
         out.append(r)
     return out
@@ -79,7 +109,7 @@ def match_finding(findings, pid, rec):
 
 
 def main(argv=None):
-    global _MOD
+    global _MOD, _TIER
     ap = argparse.ArgumentParser()
     ap.add_argument("prop")
     ap.add_argument("--tier", default=os.environ.get("VERIF_TIER", "quick"), choices=["quick", "thorough"])
@@ -88,6 +118,7 @@ def main(argv=None):
     ap.add_argument("--limit", type=int, default=0, help="debug: only the first N cases (never used by MANIFEST)")
     args = ap.parse_args(argv)
     pid = args.prop.upper()
+    _TIER = args.tier
     try:
         seed = int(os.environ.get("VERIF_SEED", "0"))
     except ValueError:
@@ -149,6 +180,9 @@ def main(argv=None):
         finally:
             pool.terminate()
             pool.join()
+    if any(r.get("skipped") for r in results):
+        capped = True  # several cases ran into the horizon; the remaining ones were not executed
+        results = [r for r in results if not r.get("skipped")]
     done = len(results)
 
     agg = dict(checks=0, states=0, transitions=0, traces=0)
@@ -190,7 +224,10 @@ def main(argv=None):
         if len(confirmed) >= 25:
             continue
         case = json.loads(json.dumps(tol.jsonable(cases[idx])))
-        again = _run_one(mod, case)
+        if rec.get("sub") == "timeout" and any(r.get("sub") == "timeout" for _, r, _ in confirmed):
+            again = dict(viol=[rec])  # one hang has already been reproduced in this process; do not wait for every other one
+        else:
+            again = _run_one(mod, case)
         subs = {(v.get("sub")) for v in again["viol"] if not match_finding(findings, pid, v)}
         if rec.get("sub") in subs or subs:
             os.makedirs(rdir, exist_ok=True)
@@ -214,7 +251,8 @@ def main(argv=None):
 
     n_unknown_cases = len({i for i, _ in unknown})
     wall = time.time() - t0
-    sample_idx = sorted({0, n // 3, (2 * n) // 3, n - 1} & set(range(done))) if done else []
+    executed = {r["index"] for r in results}
+    sample_idx = sorted({0, n // 3, (2 * n) // 3, n - 1} & executed) if done else []
     cov = dict(
         evaluations=done,
         distinct_nontrivial=len(sigs) + nontrivial_unsigged,
